@@ -119,9 +119,22 @@ def partitionAll (topics : List (Bytes × Partitions)) : Nat → List Record →
     let (rest, c'') := partitionAll topics cntr' rs
     (⟨r.topic, p, key, toOption r.value⟩ :: rest, c'')
 
+/-- the same pass as consumed by `internal_produce_messages`: the record iterator is lazy, so the
+    partitioner stops being called after the first record whose destination is unknown -/
+def partitionLazy (st : ClientState) (topics : List (Bytes × Partitions)) : Nat → List Record → List ProduceArg × Nat
+  | cntr, [] => ([], cntr)
+  | cntr, r :: rs =>
+    let key := toOption r.key
+    let (p, cntr') := partition cntr topics r.topic r.partition key
+    let m : ProduceArg := ⟨r.topic, p, key, toOption r.value⟩
+    if (st.findBroker r.topic p).isNone then ([m], cntr')
+    else
+      let (rest, c'') := partitionLazy st topics cntr' rs
+      (m :: rest, c'')
+
 /-- `Producer::send_all` -/
 def sendAll (env : Env σ) (recs : List Record) : M (WP σ) (List ProduceConfirm) := fun w =>
-  let (msgs, cntr) := partitionAll w.prod.partitions w.prod.cntr recs
+  let (msgs, cntr) := partitionLazy w.prod.client.st w.prod.partitions w.prod.cntr recs
   let (w', o) := internalProduce env w.prod.acks w.prod.ackTimeout msgs ⟨w.world, w.prod.client⟩
   (⟨w'.world, { w.prod with client := w'.client, cntr := cntr }⟩, o)
 
